@@ -330,7 +330,15 @@ def check(run):
                 argv += ['-o', plan['outp']]
             plan['seed'] = int(r.integers(0, 2 ** 31))
             plan['hs'] = int(r.integers(0, 1000))
-            plan['job'] = [{'id': 'm', 'kind': 'main', 'argv': argv, 'seed': plan['seed'], 'steps_factor': steps}]
+            cwd = None
+            if k % 5 == 2 and not plan['given']:
+                # typed inside the data directory: bare file names, default output name next to the input (= here)
+                cwd = os.path.dirname(sysfile)
+
+                def rel(x):
+                    return os.path.relpath(x, cwd) if isinstance(x, str) and os.path.isabs(x) and os.path.exists(x) else x
+                argv = [rel(a) for a in argv]
+            plan['job'] = [{'id': 'm', 'kind': 'main', 'argv': argv, 'seed': plan['seed'], 'steps_factor': steps, 'cwd': cwd}]
         plans.append(plan)
     todo = [p_ for p_ in plans if 'job' in p_]
     with Pool(16) as p:
